@@ -21,8 +21,11 @@ from typing import Any
 VERIF = os.path.dirname(os.path.dirname(os.path.abspath(__file__)))
 REPO = os.environ.get("PTVERIF_REPO", "/repo")
 SPEC_DIR = os.path.join(VERIF, "spec")
-EVIDENCE_DIR = os.path.join(VERIF, "evidence")
-REPLAY_DIR = os.path.join(VERIF, "replay")
+# (mutation experiments against a scratch worktree must not overwrite the
+# evidence of /repo: PTVERIF_OUT redirects evidence and replay files)
+_OUT = os.environ.get("PTVERIF_OUT") or VERIF
+EVIDENCE_DIR = os.path.join(_OUT, "evidence")
+REPLAY_DIR = os.path.join(_OUT, "replay")
 FINDINGS_FILE = os.path.join(VERIF, "known_findings.jsonl")
 NCPU = min(16, os.cpu_count() or 1)
 
